@@ -338,6 +338,42 @@ func c19(r *core.Run) {
 			case *ssa.MapUpdate:
 				note(x.Map, x.Key, x)
 			case ssa.CallInstruction:
+				// a duplicate-check helper that keeps its own map (hasDuplicateKey(list, keyOf)): the map lives for one
+				// call, so it serves the record kinds handed in at this call
+				for _, cal := range p.Callees(x) {
+					if cal.Blocks == nil || !core.IsCustomFn(cal) {
+						continue
+					}
+					ownMap := false
+					allInstrs(cal, func(hin ssa.Instruction) {
+						if lk, ok := hin.(*ssa.Lookup); ok {
+							if _, isMk := lk.X.(*ssa.MakeMap); isMk && lk.CommaOk {
+								ownMap = true
+							}
+						}
+					})
+					if !ownMap {
+						continue
+					}
+					fs := map[string]bool{}
+					for _, a := range x.Common().Args {
+						for _, at := range p.ProvAt(a, "", x).DataAtoms() {
+							if at.Kind == "param" && at.Fn == vf && at.Idx == 0 {
+								f := strings.TrimPrefix(at.Path, ".")
+								if j := strings.Index(f, "["); j >= 0 {
+									f = f[:j]
+								}
+								fs[f] = true
+							}
+						}
+					}
+					if len(fs) == 0 {
+						continue
+					}
+					nMaps++
+					r.Check(len(fs) == 1, "C19/R4", fmt.Sprintf("%s:validate:index-map-per-kind:%s", m, strings.Join(sortedKeys(fs), "+")), p.InstrPos(x),
+						"duplicate-index map (local to the helper called here) used for one record kind", "GenesisState.Validate checks duplicates of different record kinds ("+strings.Join(sortedKeys(fs), ", ")+") in one shared map")
+				}
 				// a duplicate-check helper taking (map, key): attribute its map operations to this call site
 				for _, cal := range p.Callees(x) {
 					allInstrs(cal, func(hin ssa.Instruction) {
